@@ -46,7 +46,11 @@ def history_case(ctx_or_vals, case):
         sf.get_esf(sf.obs_name, kin(order, get(f"hx{i}"), getq(f"hQ{i}")), use_raw=raw)
     x, Q2 = get("x"), getq("Q2")
     order, raw = case["request"]
-    obj = sf.get_esf(sf.obs_name, kin(order, x, Q2), use_raw=raw)
+    kreq = kin(order, x, Q2)
+    obj = sf.get_esf(sf.obs_name, kreq, use_raw=raw)
+    # the request's own dict (shared with cross-section objects and the caller's card) must come back unchanged
+    if list(kreq) != list(kin(order, x, Q2)) or kreq["x"] is not x or kreq["Q2"] is not Q2:
+        raise AssertionError(f"get_esf modified the kinematics dict it was given: {kreq}")
     want_tmc = (not raw) and case["tmc"] != 0
     is_tmc = isinstance(obj, tmcmod.EvaluatedStructureFunctionTMC)
     return obj, x, Q2, want_tmc, is_tmc
@@ -64,6 +68,33 @@ def replay_history(args):
         return True, (f"history {case['history']} with {args['values']}: request (x={x}, Q2={Q2}, order {case['request'][0]}) "
                       f"answered with object for (x={obj.x}, Q2={obj.Q2}), TMC object: {is_tmc} (wanted {want_tmc})")
     return False, "the requested point is returned"
+
+
+def replay_kindict(args):
+    case = dict(args["case"])
+    case["history"] = [tuple(h) for h in case["history"]]
+    case["request"] = tuple(case["request"])
+    try:
+        history_case(args["values"], case)
+    except AssertionError as e:
+        return True, str(e)
+    except ValueError as e:
+        return False, f"rejected: {e}"
+    return False, "kinematics dict untouched"
+
+
+def replay_weights_history(args):
+    from yadism.coefficient_functions.coupling_constants import CouplingConstants
+
+    P = cm.ew_params(values={})
+    shared = cm.make_coupling(P, "CC", 12)
+    bad = []
+    for q_, mask in args["sequence"]:
+        got = shared.get_weight(q_, 10.0, None, cc_mask=mask)
+        fresh = cm.make_coupling(P, "CC", 12).get_weight(q_, 10.0, None, cc_mask=mask)
+        if abs(got - fresh) > 1e-12:
+            bad.append((q_, mask, got, fresh))
+    return (True, f"shared CouplingConstants answers depend on earlier requests: {bad[:3]}") if bad else (False, "history independent")
 
 
 def replay_public_api(args):
@@ -184,7 +215,7 @@ def replay_copy(args):
     return (not ok), ("a caller's mutation of one result shows up in the next get_result()" if not ok else "private copy")
 
 
-REPLAYERS = {"history": replay_history, "ordering": replay_ordering, "public": replay_public_api, "copy": replay_copy, "memo": replay_memo}
+REPLAYERS = {"kindict": replay_kindict, "weights": replay_weights_history, "history": replay_history, "ordering": replay_ordering, "public": replay_public_api, "copy": replay_copy, "memo": replay_memo}
 
 
 def run(chk, only=None):
@@ -229,6 +260,12 @@ def run(chk, only=None):
                     if p.kind == "exc":
                         if isinstance(p.value, ValueError):
                             continue  # kinematic rejection (C16)
+                        if isinstance(p.value, AssertionError):
+                            chk.obligations += 1
+                            names = ["x", "Q2"] + [f"h{c}{i}" for i in range(len(case["history"])) for c in "xQ"]
+                            chk.report("cache:kinematics-dict-modified", f"{cname}: {p.value}", "kindict",
+                                       dict(case=case, values={n: float(p.assign.get(n, 0.5)) for n in names}))
+                            continue
                         chk.inconclusive_note(f"{cname}/path{i}: raises {type(p.value).__name__}: {str(p.value)[:100]}")
                         continue
                     obj, x, Q2, want_tmc, is_tmc = p.value
@@ -358,6 +395,34 @@ def run(chk, only=None):
                 else:
                     chk.report(f"memo:fact_matrices:mutates", f"ScaleVariations.fact_matrices(nf={nf}) modifies the operator memo / answers differently "
                                f"the second time (order {order})", "memo", dict(what="fact_matrices", nf=nf, order=order))
+        # the CouplingConstants object is shared by every observable and point of a run: its answers must not depend on what was asked before
+        seqs = [[(q_, m_) for m_ in ("dus", "c", "duscbt", "b", "t") for q_ in (1, 2, 4, 5)], [(q_, m_) for m_ in ("duscbt", "t", "c", "dus") for q_ in (5, 4, 2, 1)]]
+        for si, seq in enumerate(seqs):
+            with Ctx(chk.seed) as ctx:
+                P = cm.ew_params(ctx)
+                Q2 = ctx.var("Q2", 0, None, wlo=1, whi=100)
+                shared = cm.make_coupling(P, "CC", 12)
+                sharednc = cm.make_coupling(P, "NC", 11)
+                diffs = []
+                for q_, mask in seq:
+                    got = shared.get_weight(q_, Q2, None, cc_mask=mask)
+                    fresh = cm.make_coupling(P, "CC", 12).get_weight(q_, Q2, None, cc_mask=mask)
+                    diffs.append(S.lift(got).t != S.lift(fresh).t)
+                    for t_ in ("VV", "AA", "VA"):
+                        g2 = sharednc.get_weight(q_, Q2, t_)
+                        f2 = cm.make_coupling(P, "NC", 11).get_weight(q_, Q2, t_)
+                        diffs.append(S.lift(g2).t != S.lift(f2).t)
+                chk.obligations += 1
+                chk.evaluations += 1
+                chk.nontrivial.add(f"memo:weights:{si}")
+                v = chk.prover.check(ctx.facts() + [z3.Or(*diffs)], f"shared CouplingConstants, sequence {si}")
+                if v.status == "unsat":
+                    chk.discharged += 1
+                elif v.status == "unknown":
+                    chk.inconclusive_note("shared CouplingConstants: solver unknown")
+                else:
+                    chk.report("memo:couplings:history", "CouplingConstants.get_weight depends on the requests made before (shared by all observables of a run)",
+                               "weights", dict(sequence=[list(x_) for x_ in seq]))
         # answers of the shared scale-variation manager depend on nf only, not on what was asked before (one manager serves
         # every kinematic point of a run, i.e. every nf region of a ZM-VFNS run)
         for order in (2, 3):
